@@ -30,7 +30,7 @@ ASSUMPTIONS = [
     'for Guillot parameters outside the documented bounds but not in a listed rejected class nothing beyond agreement with the closed form is asserted',
 ]
 RULE = RULE + ' ' + 'Also: Guillot faults arriving through the fitting parameter after a first valid use, Guillot profiles re-initialised on another pressure grid and planet, NPoint nodes as numpy arrays, a slope limit just above the steepest segment; cases stratified by kind.'
-REQUIRED = {'npoint:nodes-as-arrays': 0.04, 'slope-just-below-limit': 0.004, 'guillot-fault-set-after-first-use': 0.02, 'negative-node': 0.006, 'kind:npoint': 0.08, 'kind:guillot': 0.06, 'kind:array': 0.04, 'kind:file': 0.03, 'kind:rodgers': 0.04,
+REQUIRED = {'guillot:refused-point-then-repaired': 0.1, 'npoint:nodes-as-arrays': 0.04, 'slope-just-below-limit': 0.004, 'guillot-fault-set-after-first-use': 0.02, 'negative-node': 0.006, 'kind:npoint': 0.08, 'kind:guillot': 0.06, 'kind:array': 0.04, 'kind:file': 0.03, 'kind:rodgers': 0.04,
             'kind:isothermal': 0.02, 'rejected-class': 0.04}
 # coverage-guided extra (thorough tier): pure-Python taurex modules on this property's path, instrumented by atheris
 FUZZ = {'include': ['taurex.data.profiles.temperature'], 'runs': 40000, 'workers': 4}
@@ -374,6 +374,34 @@ def check(case):
         out.applies('finite-positive')
         if np.any(good & ~(np.isfinite(T) & (T > 0))):
             out.fail('finite-positive@guillot', 'non-finite or non-positive where the closed form is a positive number')
+        # ---- history: a sampled point that is refused (another infra-red opacity together with a negative irradiation
+        # temperature; the caller catches the invalid-model error), then the temperature is put right and the same object read
+        # again: the closed form for the parameters now in force
+        try:
+            fpar = tp.fitting_parameters()
+            k_new = 10.0 ** c['lk_ir'] * 1.7
+            fpar['kappa_irr'][3](k_new)
+            fpar['T_irr'][3](-abs(c['T_irr']) - 1.0)
+            refused = False
+            try:
+                with np.errstate(all='ignore'):
+                    np.asarray(tp.profile, dtype=float)
+            except InvalidModelException:
+                refused = True
+            fpar['T_irr'][3](c['T_irr'])
+            if refused:
+                out.cls('guillot:refused-point-then-repaired')
+                with np.errstate(all='ignore'):
+                    T3 = cut(out, 'profile@guillot,after-refused-point', lambda: np.asarray(tp.profile, dtype=float), expect=(InvalidModelException,))
+                c3 = dict(c, lk_ir=math.log10(k_new))
+                want3 = guillot_reference(c3, P, g)
+                good3 = np.isfinite(want3) & (want3 > 0)
+                out.applies('guillot-closed-form')
+                if T3.shape == want3.shape and np.any(good3) and not close(T3[good3], want3[good3], rtol=1e-8):
+                    out.fail('guillot-closed-form@after-refused-point', 'after a refused point and its repair: max rel %.2e' % maxrel(T3[good3], want3[good3]))
+            fpar['kappa_irr'][3](10.0 ** c['lk_ir'])
+        except (CutError, InvalidModelException):
+            pass
         # ---- history: the same profile object initialised again on another pressure grid of the same layer count and a
         # planet of other gravity (a retrieval moving the pressure range / the planet): the closed form on the NEW inputs
         try:
